@@ -16,6 +16,7 @@ import (
 	"verif/internal/hand"
 	"verif/internal/pots"
 	"verif/internal/seats"
+	"verif/internal/tourney"
 )
 
 type checkFn func(rep *explore.Report, tier string)
@@ -32,6 +33,9 @@ var checks = map[string]checkFn{
 	"C14": hand.RunC14,
 	"C15": hand.RunC15,
 	"C10": hand.RunC10,
+	"C09": tourney.RunC09,
+	"C19": tourney.RunC19,
+	"C20": tourney.RunC20,
 	"C08": seats.RunC08,
 	"C17": seats.RunC17,
 	"C18": seats.RunC18,
@@ -46,6 +50,7 @@ var replayers = map[string]func(v *explore.Violation) (bool, string){
 	"pots":         pots.Replay,
 	"hand-c10":     hand.ReplayC10,
 	"seats":        seats.Replay,
+	"tourney":      tourney.ReplayViolation,
 	"seats-conc":   seats.ReplayConcurrent,
 }
 
